@@ -272,6 +272,12 @@ def run_unit(u, tier, keep=False, extra_defs=(), want_trace_for=None, relax_cove
                 ob["status"] = "UNKNOWN"
             if st not in ("SUCCESS", "FAILURE"):
                 r.status, r.reason = "undecided", "property %s has status %s" % (name, st)
+            if st == "FAILURE" and u.get("structure_dependent") and ob["status"] == "FAILURE":
+                # an induction-step proof over a window of the data structure is tied to the recursion scheme of the function: when it no longer goes through
+                # it says "this implementation has no such proof", not "the property is violated" (a correct re-implementation fails it too) -- undecided,
+                # never accepted silently; the bounded units of the same function judge the behaviour itself
+                r.status, r.reason = "undecided", "proof-does-not-carry-over: induction step %s fails on the current implementation (%s)" % (name, desc[:120])
+                ob["status"] = "UNKNOWN"
             r.obligations.append(ob)
         # vacuity guards
         if r.status == "ok":
